@@ -190,6 +190,7 @@ class ArrV(V):
     cols: Any
     origin: str = ""
     form: Any = None     # matform.MatForm normal form of the value, when derivable
+    touched: bool = field(default=False, compare=False)    # some element store into this array was seen
 
     def __repr__(self):
         return f"Arr({self.rows} x {self.cols})"
